@@ -443,6 +443,9 @@ class Exec:
         joined = {}
         for k in set(v1) | set(v2):
             a, b = v1.get(k), v2.get(k)
+            if k.startswith("#"):       # ghost call counter: absent means zero
+                a = a or Val("int", z3.IntVal(0), PYINT)
+                b = b or Val("int", z3.IntVal(0), PYINT)
             if a is not None and b is not None and a.k == "arr" and b.k == "arr" and a.t is not b.t \
                     and a.t.ndim == b.t.ndim and a.t.sort == b.t.sort:
                 # a name bound to different arrays in the two branches: a new array that is one or the other
